@@ -445,3 +445,259 @@ Section Ops.
         * cbn [is_array is_object drop_child]. rewrite remove_key_name. reflexivity.
       + apply small_subst; [exact Hs|]. apply small_drop_child. exact Hp.
   Qed.
+
+  (* ================================================================ D. move and copy *)
+
+  (* how an operation of the model and of the specification relate: both succeed with the
+     same document, or both are in error *)
+  Definition agree (m : opres) (s : option jv) : Prop :=
+    match m, s with
+    | OOk d, Some d' => d = d'
+    | OErr _ _, None => True
+    | _, _ => False
+    end.
+
+  (* the test on the two strings, for a non-empty "from" *)
+  Definition pv_core (from p : list byte) : verdict :=
+    if is_prefix from p then
+      match skipn (length from) p with
+      | [] => VSame
+      | c :: _ => if c =? 47 then VChild else VNone
+      end
+    else VNone.
+
+  Lemma pv_core_spec : forall from p,
+    match pv_core from p with
+    | VSame => from = p
+    | VChild => strictly_extends from p = true
+    | VNone => strictly_extends from p = false /\ from <> p
+    end.
+  Proof.
+    induction from as [|a f IH]; intros p.
+    - unfold pv_core. cbn [is_prefix length skipn]. destruct p as [|c r]; [reflexivity|].
+      cbn [strictly_extends]. destruct (c =? 47); [reflexivity|]. split; [reflexivity|discriminate].
+    - destruct p as [|b q].
+      + unfold pv_core. cbn. split; [reflexivity|discriminate].
+      + specialize (IH q). unfold pv_core in *. cbn [is_prefix length skipn strictly_extends].
+        destruct (a =? b) eqn:E; cbn [andb].
+        * apply Z.eqb_eq in E. subst b. destruct (is_prefix f q).
+          { destruct (skipn (length f) q) as [|c r].
+            - subst. reflexivity.
+            - destruct (c =? 47); [exact IH|]. destruct IH as [I1 I2]. split; [exact I1|congruence]. }
+          destruct IH as [I1 I2]. split; [exact I1|congruence].
+        * split; [reflexivity|]. intros H. inversion H. lia.
+  Qed.
+
+  Lemma prefix_verdict_move from p :
+    prefix_verdict true from p =
+    match from with
+    | [] => match p with [] => VSame | _ :: _ => VChild end
+    | _ :: _ => pv_core from p
+    end.
+  Proof.
+    destruct from as [|a f].
+    - unfold prefix_verdict. cbn [andb is_prefix length skipn zlen Z.eqb]. destruct p as [|c r]; [reflexivity|].
+      rewrite orb_true_r. reflexivity.
+    - unfold prefix_verdict, pv_core. cbn [andb]. rewrite zlen_zero_cons.
+      destruct (is_prefix (a :: f) p); [|reflexivity].
+      destruct (skipn (length (a :: f)) p) as [|c r]; [reflexivity|]. rewrite orb_false_r. reflexivity.
+  Qed.
+
+  Lemma strictly_extends_irrefl : forall s, strictly_extends s s = false.
+  Proof. induction s as [|a s IH]; [reflexivity|]. cbn. rewrite Z.eqb_refl. exact IH. Qed.
+
+  Lemma lookup_internal_conforms doc p : doc <> JNull -> small doc = true ->
+    match ptr_get_internal doc p with
+    | GIOk r => exists path, spec_get doc p = Some (path, r_obj r)
+    | GIErr _ => spec_get doc p = None
+    end.
+  Proof.
+    intros Hn Hs. pose proof (get_internal_get doc p) as G. pose proof (lookup_conforms doc p Hn Hs) as L.
+    destruct (ptr_get_internal doc p) as [r|e]; rewrite G in L; eauto.
+  Qed.
+
+  Lemma copy_conforms doc from p : doc <> JNull -> small doc = true ->
+    agree (move_copy_strings al doc from p false) (rfc_copy doc from p).
+  Proof.
+    intros Hn Hs. unfold move_copy_strings, rfc_copy. cbn [prefix_verdict andb].
+    pose proof (lookup_internal_conforms doc from Hn Hs) as L.
+    destruct (ptr_get_internal doc from) as [r|e].
+    - destruct L as [path L]. rewrite L. unfold placed_value.
+      pose proof (add_conforms doc p (r_obj r) Hs) as A.
+      destruct (ptr_set_with_array_cb (insert_idx_cb true) al doc p (r_obj r)); rewrite A; cbn; auto.
+    - rewrite L. exact I.
+  Qed.
+
+  Lemma move_conforms doc from p : doc <> JNull -> small doc = true ->
+    agree (move_copy_strings al doc from p true) (rfc_move doc from p).
+  Proof.
+    intros Hn Hs. unfold move_copy_strings, rfc_move. rewrite prefix_verdict_move.
+    unfold same_location_needs_lookup. cbn [negb].
+    pose proof (lookup_internal_conforms doc from Hn Hs) as L.
+    pose proof (remove_conforms doc from Hn Hs) as R.
+    destruct from as [|a f].
+    - (* "from" is the whole document *)
+      destruct p as [|c r].
+      + cbn [andb strictly_extends]. destruct (ptr_get_internal doc []) as [r|e].
+        * destruct L as [path L]. rewrite L. reflexivity.
+        * rewrite L. exact I.
+      + cbn [strictly_extends]. destruct (c =? 47) eqn:Ec; [exact I|].
+        unfold spec_get, parse_pointer. cbn [spec_walk bytes_eqb].
+        unfold rfc_remove, rfc_add, edit_at, parse_pointer. rewrite Ec. exact I.
+    - pose proof (pv_core_spec (a :: f) p) as V. destruct (pv_core (a :: f) p).
+      + (* onto itself *) subst p. rewrite strictly_extends_irrefl. cbn [andb].
+        destruct (ptr_get_internal doc (a :: f)) as [r|e].
+        * destruct L as [path L]. rewrite L, bytes_eqb_refl. reflexivity.
+        * rewrite L. exact I.
+      + rewrite V. exact I.
+      + destruct V as [V1 V2]. rewrite V1. cbn [andb].
+        destruct (ptr_get_internal doc (a :: f)) as [r|e].
+        * destruct L as [path L]. rewrite L.
+          replace (bytes_eqb (a :: f) p) with false by (symmetry; apply bytes_eqb_neq; exact V2).
+          destruct R as (d1 & R1 & R2 & R3). rewrite R1, R2.
+          change move_cb with (insert_idx_cb true).
+          pose proof (add_conforms d1 p (r_obj r) R3) as A.
+          destruct (ptr_set_with_array_cb (insert_idx_cb true) al d1 p (r_obj r)); rewrite A; cbn; auto.
+        * rewrite L. exact I.
+  Qed.
+
+  (* ================================================================ E. one operation; the list *)
+
+  (* the first recorded deviation: json_object_equal is not the RFC's equality on numbers of
+     different representation.  [test_agrees]: this "test" operation does not run into it. *)
+  Definition test_agrees (doc o : jv) : bool :=
+    match op_string o n_op, op_string o n_path, op_member o n_value with
+    | Some op, Some p, Some v =>
+        if bytes_eqb op n_test then
+          match spec_get doc p with
+          | Some (_, n) => Bool.eqb (rfc_equal n v) (jv_equal v n)
+          | None => true
+          end
+        else true
+    | _, _, _ => true
+    end.
+
+  (* the guard of one step: representation bound; the document is not JSON null (second
+     recorded deviation: the NULL pointer is no document for json_pointer_get*); no test
+     across number representations *)
+  Definition step_guard (doc o : jv) : bool :=
+    small doc && negb (is_null doc) && test_agrees doc o.
+
+  Lemma null_path_errors doc elem op :
+    agree (if bytes_eqb op s_test then apply_test doc elem None
+           else if bytes_eqb op s_remove then apply_remove doc None
+           else if bytes_eqb op s_add then apply_add_replace al doc elem None true
+           else if bytes_eqb op s_replace then apply_add_replace al doc elem None false
+           else if bytes_eqb op s_move then apply_move_copy al doc elem None true
+           else if bytes_eqb op s_copy then apply_move_copy al doc elem None false
+           else OErr EINVAL doc) None.
+  Proof.
+    assert (T : agree (apply_test doc elem None) None).
+    { unfold apply_test. destruct (field elem s_value); exact I. }
+    assert (R : agree (apply_remove doc None) None) by exact I.
+    assert (A : forall add, agree (apply_add_replace al doc elem None add) None).
+    { intros add. unfold apply_add_replace. destruct (field elem s_value); [|exact I]. destruct add; exact I. }
+    assert (M : forall move, agree (apply_move_copy al doc elem None move) None).
+    { intros move. unfold apply_move_copy. destruct (field elem s_from) as [j|]; [|exact I]. destruct j; exact I. }
+    repeat match goal with |- context [if ?b then _ else _] => destruct b end; auto. exact I.
+  Qed.
+
+  Lemma apply_op_conforms doc o : step_guard doc o = true -> agree (apply_op al doc o) (spec_op doc o).
+  Proof.
+    unfold step_guard. intros G. apply andb_true_iff in G. destruct G as [G Gt].
+    apply andb_true_iff in G. destruct G as [Hs Hn].
+    assert (Hnn : doc <> JNull) by (destruct doc; cbn in Hn; congruence).
+    unfold apply_op, spec_op, test_agrees, op_string, op_member in *.
+    destruct o as [| | | | | |l|ms]; try exact I.
+    cbn [field]. rewrite !object_get_member.
+    change s_op with n_op. change s_path with n_path.
+    destruct (member ms n_op) as [jop|] eqn:Eop; [|exact I].
+    destruct jop as [| | | | |op| |]; cbn [op_field];
+      try (destruct (member ms n_path) as [[]|]; exact I).
+    destruct (member ms n_path) as [jpath|] eqn:Ep; [|exact I].
+    destruct jpath as [| | | | |p| |]; cbn [path_field]; try exact I.
+    { apply null_path_errors. }
+    change s_test with n_test. change s_remove with n_remove. change s_add with n_add.
+    change s_replace with n_replace. change s_move with n_move. change s_copy with n_copy.
+    destruct (bytes_eqb op n_test) eqn:Etest.
+    { (* test *)
+      unfold apply_test. cbn [field get_c]. rewrite object_get_member. change s_value with n_value.
+      destruct (member ms n_value) as [v|] eqn:Ev; [|exact I].
+      pose proof (lookup_conforms doc p Hnn Hs) as L. unfold rfc_test.
+      destruct (ptr_get doc p) as [path n|e]; rewrite L in *; [|exact I].
+      apply eqb_prop in Gt. rewrite Gt. destruct (jv_equal v n); cbn; auto. }
+    destruct (bytes_eqb op n_remove) eqn:Eremove.
+    { (* remove *)
+      unfold apply_remove. cbn [get_internal_c].
+      pose proof (remove_conforms doc p Hnn Hs) as R.
+      destruct (ptr_get_internal doc p) as [r|e].
+      - destruct R as (d & R1 & R2 & _). rewrite R1, R2. reflexivity.
+      - rewrite R. exact I. }
+    destruct (bytes_eqb op n_add) eqn:Eadd.
+    { (* add *)
+      unfold apply_add_replace. cbn [field set_c]. rewrite object_get_member. change s_value with n_value.
+      destruct (member ms n_value) as [v|]; [|exact I]. unfold placed_value.
+      pose proof (add_conforms doc p v Hs) as A.
+      destruct (ptr_set_with_array_cb (insert_idx_cb true) al doc p v); rewrite A; cbn; auto. }
+    destruct (bytes_eqb op n_replace) eqn:Ereplace.
+    { (* replace *)
+      unfold apply_add_replace. cbn [field set_c get_c]. rewrite object_get_member. change s_value with n_value.
+      destruct (member ms n_value) as [v|]; [|exact I]. unfold placed_value.
+      pose proof (replace_conforms doc p v Hnn Hs) as R. unfold model_replace in R.
+      destruct (ptr_get doc p) as [path n|e].
+      - destruct (ptr_set_with_array_cb (insert_idx_cb false) al doc p v); rewrite R; cbn; auto.
+      - rewrite R. exact I. }
+    destruct (bytes_eqb op n_move) eqn:Emove.
+    { (* move *)
+      unfold apply_move_copy. cbn [field]. rewrite object_get_member. change s_from with n_from.
+      destruct (member ms n_from) as [jf|]; [|exact I].
+      destruct jf as [| | | | |from| |]; cbn [from_field]; try exact I.
+      apply move_conforms; assumption. }
+    destruct (bytes_eqb op n_copy) eqn:Ecopy.
+    { (* copy *)
+      unfold apply_move_copy. cbn [field]. rewrite object_get_member. change s_from with n_from.
+      destruct (member ms n_from) as [jf|]; [|exact I].
+      destruct jf as [| | | | |from| |]; cbn [from_field]; try exact I.
+      apply copy_conforms; assumption. }
+    exact I.
+  Qed.
+
+  (* how the two runs relate: both complete with the same document, or both stop at the same
+     operation *)
+  Definition pagree (m : pres) (s : spres) : Prop :=
+    match m, s with
+    | PDone d, SDone d' => d = d'
+    | PFail i _ _, SFail i' => i = i'
+    | _, _ => False
+    end.
+
+  (* a guard holds along the run: for every operation that RFC 6902 evaluation reaches, on the
+     document it reaches it with *)
+  Fixpoint run_guard (g : jv -> jv -> bool) (ops : list jv) (doc : jv) : bool :=
+    match ops with
+    | [] => true
+    | o :: rest =>
+        g doc o && match spec_op doc o with
+                   | Some doc' => run_guard g rest doc'
+                   | None => true
+                   end
+    end.
+
+  Lemma apply_ops_conforms : forall ops i doc,
+    run_guard step_guard ops doc = true -> pagree (apply_ops al ops i doc) (spec_ops ops i doc).
+  Proof.
+    induction ops as [|o rest IH]; intros i doc G; [reflexivity|].
+    cbn [run_guard] in G. apply andb_true_iff in G. destruct G as [G1 G2].
+    pose proof (apply_op_conforms doc o G1) as A. cbn [apply_ops spec_ops].
+    destruct (apply_op al doc o) as [d|e d|], (spec_op doc o) as [d'|]; cbn in A; try contradiction.
+    - subst d'. apply IH. exact G2.
+    - reflexivity.
+  Qed.
+
+  Theorem apply_conforms_guarded : forall target ops,
+    target <> JNull -> run_guard step_guard ops target = true ->
+    pagree (patch_apply al target (JArr ops)) (spec_ops ops 0 target).
+  Proof.
+    intros target ops Hn G. unfold patch_apply. rewrite (not_null_is_null _ Hn). apply apply_ops_conforms. exact G.
+  Qed.
+End Ops.
